@@ -270,7 +270,8 @@ int main(int argc, char** argv) {
   std::cout << "INITIALIZED " << (sc.isSuccess() ? 1 : 0) << std::endl;
   int rc = vf::drive(argc, argv, [&]() {
     StatusCode s = alg.execute();
-    if (!s.isSuccess()) std::cout << "STATUS-FAILURE" << std::endl;
+    if (!s.isSuccess()) { std::cout << "STATUS-FAILURE" << std::endl; return false; }
+    return true;
   });
   alg.finalize();
   return rc;
@@ -286,7 +287,7 @@ int main(int argc, char** argv) {
   mod->beginJob();
   std::cout << "INITIALIZED 1" << std::endl;
   edm::Event ev; edm::EventSetup es;
-  int rc = vf::drive(argc, argv, [&]() { mod->analyze(ev, es); });
+  int rc = vf::drive(argc, argv, [&]() { mod->analyze(ev, es); return true; });
   mod->endJob();
   return rc;
 }
